@@ -284,8 +284,19 @@ class BodyGen:
         used = [c for c in cols if any(c["name"] in r for r in rows)] or cols[:1]
         if self.rng.random() < 0.3:
             used = cols
-        return {"op": "bulk_insert", "table": table["name"], "cols": [{"name": c["name"], "type": c["type"]} for c in used],
-                "rows": rows, "multiinsert": multi}
+        o = {"op": "bulk_insert", "table": table["name"], "cols": [{"name": c["name"], "type": c["type"]} for c in used],
+             "rows": rows, "multiinsert": multi}
+        if not self.lang_only and self.rng.random() < 0.1:
+            # ad-hoc sa.table() with UNTYPED columns: the values reach pysqlite / the literal renderer as plain Python objects
+            o["untyped"] = True
+            for r in rows:
+                for c in cols:
+                    if c["name"] in r and c["name"] != "id" and r[c["name"]]["k"] != "null" and self.rng.random() < 0.35:
+                        r[c["name"]] = self.rng.choice([
+                            {"k": "datetime", "v": "2024-03-03T09:30:00"}, {"k": "datetime", "v": "2024-03-03T09:30:00.000123"},
+                            {"k": "date", "v": "2024-02-29"}, {"k": "bool", "v": True}, {"k": "bytes", "v": "00ff27"},
+                            {"k": "int", "v": 7}, {"k": "str", "v": "plain ü"}, {"k": "float", "v": "1.5"}])
+        return o
 
     def wrap_autocommit(self, ops):
         """with probability ~1/5 put a contiguous run of the body into `with op.get_context().autocommit_block():`
@@ -499,7 +510,7 @@ def in_language(ops):
             if o.get("unique") or o.get("where") or any(isinstance(c, dict) for c in o["cols"]):
                 return False
         elif k == "bulk_insert":
-            if o.get("malformed") or any(c["type"] not in TYPES_LANG for c in o["cols"]):
+            if o.get("malformed") or o.get("untyped") or any(c["type"] not in TYPES_LANG for c in o["cols"]):
                 return False
             if any(v["k"] not in ("null", "int", "str") for r in o["rows"] for v in r.values()):
                 return False
